@@ -567,6 +567,14 @@ func genParseMain(args []string) {
 			}
 		}
 	}
+	// characters in front of (and behind) a path: blanks are skipped, every other character is a name character or an error
+	// exactly where it stands -- byte-order mark, zero-width and no-break spaces, line separators, control characters
+	for _, pre := range []string{"\ufeff", "\u200b", "\u00a0", "\u2028", "\t", "\n", " ", "\ufeff\ufeff", " \ufeff", "\x00", "\u0085"} {
+		for _, tail := range []string{`$.a`, `a`, `$.a[`, `.a`, `['a']`, `$`, `*`, `a.b[`, `$..a`, `[?(@.a)]`} {
+			emit(pre+tail, "leading-characters")
+			emit(tail+pre, "trailing-characters")
+		}
+	}
 	// quoted member names: every sequence of up to three pieces -- the other quote, the own quote escaped, a backslash
 	// pair, raw control characters, escapes (valid, truncated, lone surrogate), a plain letter -- in both quote styles
 	pieces := []string{`"`, `'`, `\\`, "\t", "\n", "a", `\u0041`, `\uD834`, `\u00`, `\`, "\x01", `\n`}
